@@ -10,13 +10,14 @@ fp_prime_get_srt; for p ≡ 3 (mod 4) the library's constant is 1 and unused).
 The driver evaluates these hypotheses on the context the running library reports (Driver/C02.lean: checkParam).
 
 Not modelled (class C, compared with the specification only): fp_inv_divst, fp_inv_jmpds, fp_smb_binar (Pornin), fp_smb_divst,
-fp_smb_jmpds, fp_crt / fp_is_cub.  fp_is_sqr / the flag of the Tonelli–Shanks branch of fp_srt call fp_smb, which is
+fp_smb_jmpds, the general branch of fp_crt (p ≡ 1 mod 9) and fp_is_cub.  fp_is_sqr / the flag of the Tonelli–Shanks branch of fp_srt call fp_smb, which is
 FP_SMB = JMPDS in the verified configuration: the model evaluates Euler's criterion (the algorithm of fp_smb_basic) instead.
 -/
 import RelicVerif.Lemmas.FpAlgExp
 import RelicVerif.Lemmas.FpAlgInv
 import RelicVerif.Lemmas.FpAlgInv2
 import RelicVerif.Lemmas.FpAlgSrt
+import RelicVerif.Lemmas.FpAlgCrt
 
 namespace Relic.Props.C02
 open Relic.Model.FpAlg Relic.Model.Rec
@@ -87,9 +88,17 @@ theorem fp_srt_root_iff (c : Ctx) (h : c.WFsrt) (a : Nat) (ha : a < c.p) :
 theorem fp_is_sqr_iff (c : Ctx) (h : c.WF) (a : Nat) (ha : a < c.p) :
     ∃ b, isSqr c a = some b ∧ (b = true ↔ ∃ y, y * y % c.p = a) := isSqr_spec c h a ha
 
+/-- fp_crt on the primes where it is one exponentiation (p ≡ 2 mod 3, p ≡ 4 mod 9, p ≡ 7 mod 9): a cube root is returned
+    exactly when one exists, and it cubes to the operand.  (The general branch, p ≡ 1 mod 9, is class C.) -/
+theorem fp_crt_exp_branches (c : Ctx) (h : c.WF) (a : Nat) (ha : a < c.p) (e : Nat) (he : crtExp c = some e) :
+    ∃ r x, crtEasy c a = some (some (r, x)) ∧ (r = true ↔ ∃ y, y * y % c.p * y % c.p = a) ∧
+      (r = true → x < c.p ∧ x * x % c.p * x % c.p = a) := crtEasy_spec c h a ha e he
+
 /-- the hypotheses are satisfiable: p = 13, R = 2^8, RLC_FP_BITS = 8, f = 2, z = 8 (8² = 64 ≡ −1) -/
 example : ({ p := 13, m := 8, fb := 8, rinv := 3, width := 4, f := 2, z := 8 } : Ctx).WFsrt :=
   { prime := by decide, odd := by decide, ltR := by decide, rinv := by decide, fbits := by decide, width := by decide,
     fpos := by decide, fq := ⟨3, by decide, by decide⟩, zlt := by decide, zord := fun _ => by decide }
+
+example : crtExp { p := 13, m := 8, fb := 8, rinv := 3 } = some 3 := by decide
 
 end Relic.Props.C02
